@@ -277,7 +277,8 @@ def gen_case(rng: random.Random, tier: str):
         elif r < 0.75:
             alias_ops.append({"op": "cycle", "pos": pos, "len": rng.randint(1, 4), "use": rng.choice(["resolve", "attr", "field", "sizeof", *FIELD_USES])})
         elif r < 0.9:
-            alias_ops.append({"op": "dangling", "pos": pos, "hops": rng.randint(0, 3), "use": rng.choice(["resolve", "attr", "field", *FIELD_USES])})
+            alias_ops.append({"op": "dangling", "pos": pos, "hops": rng.randint(0, 3), "use": rng.choice(["resolve", "attr", "field", *FIELD_USES]),
+                              "lookalike": rng.randrange(1000) if rng.random() < 0.5 else None})
         elif r < 0.95:
             alias_ops.append({"op": "long_chain", "pos": pos, "len": rng.randint(2, 12)})
         else:
@@ -463,8 +464,23 @@ def run_history(case, perturbed, stats):
                     head, expect_err = names[0], True
                 elif k == "dangling":
                     names = [base + str(i) for i in range(op["hops"] + 1)]
+                    # where the chain ends: a name nobody declared - sometimes one that differs from a DECLARED name only in
+                    # letter case or by a trailing underscore (an unknown name must never bind to a look-alike)
+                    nowhere = base + "nowhere"
+                    declared = sorted(str(n_) for n_ in cs.typedefs if isinstance(n_, str) and n_.isidentifier())
+                    if op.get("lookalike") is not None and declared:
+                        src = declared[op["lookalike"] % len(declared)]
+                        for cand in (src.lower(), src.upper(), src.swapcase(), src.capitalize(), src + "_", "_" + src):
+                            if cand not in cs.typedefs and cand not in cs.consts and cand.isidentifier():
+                                nowhere = cand
+                                stats.count("probe.dangling_name_is_lookalike_of_declared_name")
+                                break
                     for i, nme in enumerate(names):
-                        cs.typedefs[nme] = names[i + 1] if i + 1 < len(names) else base + "nowhere"
+                        cs.typedefs[nme] = names[i + 1] if i + 1 < len(names) else nowhere
+                    if op.get("lookalike") is not None and op["hops"] == 0 and nowhere != base + "nowhere":
+                        # refer to the look-alike directly
+                        cs.typedefs.pop(names[0], None)
+                        names = [nowhere]
                     head, expect_err = names[0], True
                 else:
                     names = [base + str(i) for i in range(op["len"])]
@@ -472,6 +488,8 @@ def run_history(case, perturbed, stats):
                         cs.add_type(nme, names[i + 1] if i + 1 < len(names) else "uint16")
                     head, expect_err = names[0], None  # may resolve (to uint16) or report the hop limit, never anything else
                 use = op.get("use", "resolve")
+                if use == "attr" and head not in cs.typedefs:
+                    use = "resolve"  # cs.<name> for a name that is in no table at all is an AttributeError by design
                 signal.signal(signal.SIGALRM, _alarm)
                 signal.setitimer(signal.ITIMER_REAL, 5.0)
                 try:
